@@ -50,59 +50,85 @@ def dead_handlers_after_pop(rec, F):
     if fn is None:
         rec.anchor_lost("F12.handlers-after-pop", "Fiber::pop_frame")
         return
-    bodies = [(fn, None)] + [(c, c) for c in F.closures_of(fn)]
     pops = [bi for bi, t in fn.calls() if lastseg(t["f"]) == "pop" and sem.desc_mentions_field(sem.desc_operand(fn, t["args"][0]), "frames")]
+
+    def is_count_call(f, t):
+        """frames.len(), or a Fiber accessor that answers frames.len()"""
+        if lastseg(t["f"]) == "len" and t["args"] and sem.desc_mentions_field(sem.desc_operand(f, t["args"][0]), "frames"):
+            return True
+        if lastseg(t["f"]) == "len" and t["args"] and f.kind == "Closure":
+            # a capture of the closure: what the enclosing function put there
+            r0 = f.root_of(t["args"][0])
+            if r0[0] == "place" and r0[1]["l"] == 1:
+                cap = next((e[1] for e in r0[1]["p"] if e[0] == "field"), None)
+                for b2, s2i, s2 in fn.stmts():
+                    if cap is not None and s2["r"]["k"] == "agg" and s2["r"]["adt"] == "closure:" + f.path and cap < len(s2["r"]["ops"]):
+                        if sem.desc_mentions_field(sem.desc_operand(fn, s2["r"]["ops"][cap]), "frames"):
+                            return True
+        g = F.fn(t["f"])
+        if g is not None and g.path.startswith(FIBER + "::") and len(g.blocks) < 12:
+            return any(lastseg(t2["f"]) == "len" and t2["args"] and sem.desc_mentions_field(sem.desc_operand(g, t2["args"][0]), "frames") and t2["dest"]["l"] == 0 for _, t2 in g.calls())
+        return False
+
+    def after_pop(block):
+        return bool(pops) and (any(fn.dominates(p, block) and p != block for p in pops) or not sem.reaches(fn, 0, block, avoid=set(pops)))
+
+    def judge_in_fn(o):
+        """(ok, how) for an operand of pop_frame's own body holding the count"""
+        r = fn.root_of(o)
+        d = str(sem.desc_operand(fn, o))
+        if r[0] == "call" and is_count_call(fn, r[1]):
+            a = after_pop(r[2])
+            return a, "frame count read %s the pop" % ("after" if a else "before")
+        if r[0] == "rvalue" and r[1]["k"] == "bin" and r[1]["op"].startswith("Sub") and sem.const_int(r[1]["b"]) == 1:
+            ra = fn.root_of(r[1]["a"])
+            if ra[0] == "call" and is_count_call(fn, ra[1]):
+                a = after_pop(ra[2])
+                return (not a), "frame count read %s the pop, minus one" % ("after" if a else "before")
+        if r[0] == "place" and r[1]["p"] and r[1]["p"][-1][0] == "field" and r[1]["p"][-1][1] == 0:
+            # .0 of a checked subtraction
+            base = fn.root_of({"copy": {"l": r[1]["l"], "p": []}})
+            if base[0] == "rvalue" and base[1]["k"] == "bin" and base[1]["op"].startswith("Sub") and sem.const_int(base[1]["b"]) == 1:
+                ra = fn.root_of(base[1]["a"])
+                if ra[0] == "call" and is_count_call(fn, ra[1]):
+                    a = after_pop(ra[2])
+                    return (not a), "frame count read %s the pop, minus one" % ("after" if a else "before")
+        return False, "count is %s" % d[:70]
     n = 0
-    for body, clo in bodies:
+    for body in [fn] + list(F.closures_of(fn)):
+        clo = None if body is fn else body
         for bi, si, s in body.stmts():
             r = s["r"]
             if r["k"] != "bin" or r["op"] not in ("Gt", "Ge", "Lt", "Le"):
                 continue
-            da, db = sem.desc_operand(body, r["a"]), sem.desc_operand(body, r["b"])
-            sa, sb = str(da), str(db)
+            sa, sb = str(sem.desc_operand(body, r["a"])), str(sem.desc_operand(body, r["b"]))
             if "call_frame_depth" not in sa + sb:
                 continue
-            other = db if "call_frame_depth" in sa else da
+            other = r["b"] if "call_frame_depth" in sa else r["a"]
             n += 1
-            # where is the frame count read?
-            ok = False
-            how = "?"
-            so = str(other)
-            if "'len'" in so:
-                if clo is None:
-                    # len() call in pop_frame itself: the pop dominates it
-                    lens = [b2 for b2, t2 in body.calls() if lastseg(t2["f"]) == "len" and sem.desc_mentions_field(sem.desc_operand(body, t2["args"][0]), "frames")]
-                    minus1 = "Sub" in so and "('const', 1)" in so
-                    after = [l for l in lens if any(fn.dominates(p, l) and p != l for p in pops)]
-                    before = [l for l in lens if l not in after]
-                    ok = (bool(after) and not before and not minus1) or (bool(before) and not after and minus1) or (bool(after) and bool(before))
-                    how = "len() %s the pop%s" % ("after" if after else "before", " minus one" if minus1 else "")
-                else:
-                    # inside a closure: the call that runs the closure is dominated by the pop
+            if clo is None:
+                ok, how = judge_in_fn(other)
+            else:
+                orr = body.root_of(other)
+                ok, how = False, "count is %s" % str(sem.desc_operand(body, other))[:70]
+                if orr[0] == "call" and is_count_call(body, orr[1]):
+                    # read inside the closure: the closure must run after the pop
                     sites = [b2 for b2, t2 in fn.calls() if clo.path in sem.closure_args_of_call(fn, t2)]
-                    # reached on paths that pop: every path to the site passes a pop of `frames`
-                    ok = bool(sites) and all(not sem.reaches(fn, 0, sx, avoid=set(pops)) for sx in sites)
-                    how = "closure run after the pop" if ok else "closure can run before the pop"
-            if clo is not None and "'len'" not in so:
-                # the count was computed outside and captured: `let depth = self.frames.len(); .. |h| h.call_frame_depth() > depth`
-                cap = None
-                orr = body.root_of(r["b"] if "call_frame_depth" in sa else r["a"])
-                if orr[0] == "place" and orr[1]["l"] == 1:
+                    ok = bool(sites) and all(after_pop(sx) for sx in sites)
+                    how = "closure runs %s the pop" % ("after" if ok else "before")
+                elif orr[0] == "place" and orr[1]["l"] == 1:
                     cap = next((e[1] for e in orr[1]["p"] if e[0] == "field"), None)
-                if cap is not None:
                     for b2, s2i, s2 in fn.stmts():
-                        if s2["r"]["k"] == "agg" and s2["r"]["adt"] == "closure:" + clo.path and cap < len(s2["r"]["ops"]):
-                            rr = fn.root_of(s2["r"]["ops"][cap])
-                            dd = str(sem.desc_operand(fn, s2["r"]["ops"][cap]))
-                            if rr[0] == "call" and lastseg(rr[1]["f"]) == "len" and "frames" in dd:
-                                lb = rr[2]
-                                minus1 = False
-                                after = any(fn.dominates(p, lb) and p != lb for p in pops) or (bool(pops) and not sem.reaches(fn, 0, lb, avoid=set(pops)))
-                                ok = after
-                                how = "captured frames.len() read %s the pop" % ("after" if after else "before")
-                            elif "'len'" in dd and "frames" in dd and "Sub" in dd and "('const', 1)" in dd:
-                                ok = True
-                                how = "captured frames.len() - 1"
+                        if cap is not None and s2["r"]["k"] == "agg" and s2["r"]["adt"] == "closure:" + clo.path and cap < len(s2["r"]["ops"]):
+                            op = s2["r"]["ops"][cap]
+                            rr = fn.root_of(op)
+                            if rr[0] == "local" or rr[0] == "place":
+                                # captured by reference: the local it refers to
+                                l_ = rr[1] if rr[0] == "local" else rr[1]["l"]
+                                ok, how = judge_in_fn({"copy": {"l": l_, "p": []}})
+                            else:
+                                ok, how = judge_in_fn(op)
+                            how = "captured: " + how
             rec.inst(R, "pop_frame: handler depth compared with the post-pop frame count", ok=ok, loc=loc_of(s["sp"]), note=how)
             if not ok:
                 rec.finding(R, "F12.handlers-after-pop", "Fiber::pop_frame compares call_frame_depth() with a frame count that still includes the frame being popped (%s): handlers the returning function was still inside of (a return out of nested try blocks pops only the innermost) are never discarded, and a later error is delivered to a handler whose frame is gone" % how, loc=loc_of(s["sp"]), fn=fn.path)
